@@ -10,6 +10,7 @@ import (
 	"fmt"
 	"io"
 	"log"
+	"math"
 	"strconv"
 	"sync"
 	"time"
@@ -273,6 +274,11 @@ func (tdsChan *Channel) handleSpecialPackage(pkg Package) (bool, error) {
 				if err != nil {
 					return false, fmt.Errorf("error parsing new packet size '%s' to int: %w",
 						member.NewValue, err)
+				}
+				// The packet size includes the header and is transmitted
+				// in the 16 bit length field of the header.
+				if packSize <= PacketHeaderSize || packSize > math.MaxUint16 {
+					return false, fmt.Errorf("invalid new packet size: %d", packSize)
 				}
 				tdsChan.tdsConn.packetSize = packSize
 			}
